@@ -245,8 +245,7 @@ type mem struct {
 	committed []*big.Int // polynomial behind the published commitments; nil = not known to anybody
 	commits   tss.Points
 	// accepted round-2 material
-	sent    map[int]*big.Int // recipient idx -> scalar that was encrypted
-	garbled map[int]bool     // recipient idx -> ciphertext/nonce/key was mangled
+	slots []slotC // what is in every slot of the accepted list of encrypted shares
 	// round 3
 	priv     tss.Scalar // own key share as computed by the daemon hook
 	attempts int
@@ -273,9 +272,16 @@ type r1Attempt struct {
 }
 
 type r2Attempt struct {
-	info    tsstypes.Round2Info
-	sent    map[int]*big.Int
-	garbled map[int]bool
+	info  tsstypes.Round2Info
+	slots []slotC
+}
+
+// slotC is what the harness knows about one encrypted share: the 32-byte value that was encrypted, the scalar x for
+// which the encryption key is (dealer one-time private key)*x*G, and whether ciphertext/nonce were altered afterwards.
+type slotC struct {
+	plain   *big.Int
+	keyX    *big.Int
+	mangled bool
 }
 
 type item struct {
@@ -380,14 +386,19 @@ func (w *world) dev(m *mem, label string) {
 
 // bad: the share dealer j gave to recipient i is inconsistent with j's published commitments.
 func (w *world) bad(j, i *mem) bool {
-	if j.garbled[i.idx] || j.committed == nil {
+	sl := w.slotOf(j, i)
+	if j.committed == nil || sl < 0 || sl >= len(j.slots) || !i.haveDKG {
 		return true
 	}
-	s := j.sent[i.idx]
-	if s == nil {
+	s := j.slots[sl]
+	if s.mangled || s.plain == nil || s.keyX == nil {
+		return true // an altered ciphertext decrypts to an unrelated 32-byte value
+	}
+	// the recipient decrypts with (own one-time private key)*(dealer one-time public key)
+	if modN(s.keyX).Cmp(modN(bigOf(i.dkg.OneTimePrivKey))) != 0 {
 		return true
 	}
-	return modN(s).Cmp(ref.TSSEvalPoly(j.committed, uint64(i.id))) != 0
+	return modN(s.plain).Cmp(ref.TSSEvalPoly(j.committed, uint64(i.id))) != 0
 }
 
 // ---- key material ------------------------------------------------------------------------------------------
@@ -604,7 +615,14 @@ func (w *world) buildR1(m *mem, deviate bool) *item {
 		commits := append(tss.Points{}, a.info.CoefficientCommits...)
 		commits[k] = negPoint(src.CoefficientCommits[k])
 		a.info.CoefficientCommits = commits
-		a.committed = nil
+		a.committed = nil // nobody knows the discrete log of the negated commitment ...
+		if src.MemberID >= 1 && int(src.MemberID) <= w.n {
+			if sm := w.mems[src.MemberID-1]; sm.committed != nil && len(sm.committed) == t {
+				q := append([]*big.Int(nil), a.dealt...) // ... except the harness, which knows the source member's polynomial
+				q[k] = modN(new(big.Int).Sub(ref.TSSN, sm.committed[k]))
+				a.committed = q
+			}
+		}
 	}
 	if devk != "" {
 		it.label, it.honest = devk, false
@@ -648,10 +666,11 @@ func (w *world) buildR2(m *mem, deviate bool) *item {
 		w.fail("C04/daemon-error", "ComputeEncryptedSecretShares(member %d) returned %d shares for %d members", m.id, len(enc), w.n)
 		return nil
 	}
-	a := &r2Attempt{sent: map[int]*big.Int{}, garbled: map[int]bool{}}
-	for _, o := range w.others(m) {
-		a.sent[o.idx] = ref.TSSEvalPoly(m.dealt, uint64(o.id)) // what an honest dealer encrypts
+	a := &r2Attempt{}
+	for _, o := range w.others(m) { // what an honest dealer encrypts, and for whom
+		a.slots = append(a.slots, slotC{plain: ref.TSSEvalPoly(m.dealt, uint64(o.id)), keyX: bigOf(o.dkg.OneTimePrivKey)})
 	}
+	slot := func(r *mem) *slotC { return &a.slots[w.slotOf(m, r)] }
 	enc = enc.Clone()
 	it := &item{kind: "r2", label: "honest", m: m, sender: m.acct, claimed: m.id, wellFormed: true, honest: true, r2: a}
 	targets := []*mem{w.target(m, m.spec.To)}
@@ -685,23 +704,23 @@ func (w *world) buildR2(m *mem, deviate bool) *item {
 	case "flip":
 		for _, r := range targets {
 			enc[w.slotOf(m, r)][v%32] ^= byte(1) << (v % 8)
-			a.garbled[r.idx] = true
+			slot(r).mangled = true
 		}
 	case "nonce":
 		for _, r := range targets {
 			enc[w.slotOf(m, r)][32+v%16] ^= 0x01
-			a.garbled[r.idx] = true
+			slot(r).mangled = true
 		}
 	case "scalar":
 		for _, r := range targets {
 			var s *big.Int
 			switch v % 3 {
 			case 0:
-				s = modN(new(big.Int).Add(a.sent[r.idx], big.NewInt(1)))
+				s = modN(new(big.Int).Add(slot(r).plain, big.NewInt(1)))
 			case 1:
 				s = ref.TSSEvalPoly(m.dealt, uint64(r.id)+1) // evaluated at the wrong id
 			default:
-				s = modN(new(big.Int).Sub(ref.TSSN, a.sent[r.idx])) // -f(r)
+				s = modN(new(big.Int).Sub(ref.TSSN, slot(r).plain)) // -f(r)
 			}
 			if s.Sign() == 0 {
 				s = big.NewInt(1)
@@ -709,11 +728,11 @@ func (w *world) buildR2(m *mem, deviate bool) *item {
 			if k := keyFor(r); k == nil || !reenc(r, s, nil, k) {
 				return nil
 			}
-			a.sent[r.idx] = s
+			slot(r).plain = s
 		}
 	case "plusn": // non-canonical encoding f(r)+N of the correct share (fits 32 bytes only for tiny shares)
 		r := targets[0]
-		raw := new(big.Int).Add(a.sent[r.idx], ref.TSSN)
+		raw := new(big.Int).Add(slot(r).plain, ref.TSSN)
 		if raw.BitLen() > 256 {
 			w.v.Count("dev_inapplicable", 1)
 			devk = ""
@@ -724,20 +743,21 @@ func (w *world) buildR2(m *mem, deviate bool) *item {
 		if k := keyFor(r); k == nil || !reenc(r, nil, b, k) {
 			return nil
 		}
-		a.sent[r.idx] = raw // congruent to the correct share: still consistent
+		slot(r).plain = raw // congruent to the correct share: still consistent
 	case "wrongkey":
 		for _, r := range targets {
-			k, err := tss.ComputeSecretSym(m.dkg.OneTimePrivKey, tssworld.ScalarFrom("c04-otherpub", w.c.Seed, m.idx, r.idx).Point())
-			if err != nil || !reenc(r, a.sent[r.idx], nil, k) {
+			x := tssworld.ScalarFrom("c04-otherpub", w.c.Seed, m.idx, r.idx)
+			k, err := tss.ComputeSecretSym(m.dkg.OneTimePrivKey, x.Point())
+			if err != nil || !reenc(r, slot(r).plain, nil, k) {
 				w.fail("harness", "wrongkey: %v", err)
 				return nil
 			}
-			a.garbled[r.idx] = true
+			slot(r).keyX = bigOf(x)
 		}
 	case "swap":
 		if w.n < 3 {
 			enc[w.slotOf(m, targets[0])][v%32] ^= 0x80
-			a.garbled[targets[0].idx] = true
+			slot(targets[0]).mangled = true
 			break
 		}
 		r1 := targets[0]
@@ -747,7 +767,7 @@ func (w *world) buildR2(m *mem, deviate bool) *item {
 		}
 		s1, s2 := w.slotOf(m, r1), w.slotOf(m, r2)
 		enc[s1], enc[s2] = enc[s2], enc[s1]
-		a.garbled[r1.idx], a.garbled[r2.idx] = true, true
+		a.slots[s1], a.slots[s2] = a.slots[s2], a.slots[s1]
 	case "short":
 		enc = enc[:len(enc)-1]
 		it.wellFormed = false
@@ -823,7 +843,7 @@ func (w *world) buildR3(m *mem, deviate bool) *item {
 		if w.bad(j, m) {
 			want[j.id] = true
 		} else {
-			sum = modN(new(big.Int).Add(sum, j.sent[m.idx]))
+			sum = modN(new(big.Int).Add(sum, j.slots[w.slotOf(j, m)].plain))
 		}
 	}
 	got := map[tss.MemberID]bool{}
@@ -1018,10 +1038,7 @@ func (w *world) buildExtra(x c04Extra) *item {
 				enc = append(enc, e)
 			}
 		}
-		it.r2 = &r2Attempt{sent: map[int]*big.Int{}, garbled: map[int]bool{}, info: tsstypes.Round2Info{MemberID: as.id, EncryptedSecretShares: enc}}
-		for _, o := range w.others(as) {
-			it.r2.garbled[o.idx] = true
-		}
+		it.r2 = &r2Attempt{info: tsstypes.Round2Info{MemberID: as.id, EncryptedSecretShares: enc}}
 		it.msg = tsstypes.NewMsgSubmitDKGRound2(w.gid, it.r2.info, sender.Addr.String())
 	case "complain":
 		resp := w.target(as, x.Pos)
@@ -1170,7 +1187,7 @@ func (w *world) observe(res *sim.BlockResult) {
 				w.acc[idx] = s
 			}
 		case "r2":
-			m.sent, m.garbled = it.r2.sent, it.r2.garbled
+			m.slots = it.r2.slots
 		case "confirm":
 			// nothing: Member.PubKey is checked when the group is ACTIVE
 		case "complain":
